@@ -30,6 +30,9 @@ CTX_NAMES = [None, 'FP64', 'FP32', 'FP16', 'RTZ16', 'RTP16', 'RTN32', 'RAZ8', 'M
 HOT = frozenset(['eval', 'compile', '_compile', 'to_value', 'from_value', '_mpfr_call_with_prec', '__iter__', 'mpfr_call',
                  '_visit_context', '_normalize', 'register', '_func_ctx', '_call_fpy', '_eval_call', 'round',
                  '_default_function_call', 'make_namespace', '__call__'])
+CRITICAL = ['_mpfr_call_with_prec', '_mpfr_call_with_prec', 'mpfr_call', '_round_odd', 'float_to_mpfr', 'compile', 'eval',
+            '_compile', 'to_value', 'from_value', '_normalize', '_func_ctx', '_call_fpy', '_eval_call', 'make_namespace',
+            '_round_prepare', '_round_at', '_default_function_call', '_visit_function']
 OPCODE_FILES = ('interpret/byte.py', 'number/gmputils.py', 'number/engine/engine.py', 'fpy2/ops.py',
                 'interpret/value.py', 'interpret/interpreter.py')
 
@@ -409,7 +412,11 @@ def gen_run(seed: int, tier: str, sub: str) -> dict:
                 continue
             cancel = None
             if 'cancel' in fault_kinds and r.random() < 0.25:
-                cancel = int(2 ** r.uniform(0, 14.5))
+                if r.random() < 0.5:
+                    cancel = int(2 ** r.uniform(0, 14.5))
+                else:
+                    # placed where state is being changed: the k-th line inside a small critical function
+                    cancel = [r.choice(CRITICAL), r.randint(1, 40)]
             rt = r.choice(['default', 'default', 'own', 'fresh'])
             if cfg.get('stampede') and j < 3:
                 rt, cancel = 'default', None
@@ -470,6 +477,7 @@ def execute_run(run: dict) -> dict:
     for ns in (('cap',) if cfg['sub'] == 'captured' else ('main', 'alt', 'lib')):
         spaces[ns] = load_ns(ns)
     derived: dict[str, object] = {}
+    busy: dict = {}
     history: list[dict] = []
     engines = []
     rng = random.Random(run['sched_seed']) if run.get('schedule') is None else None
@@ -588,16 +596,19 @@ def execute_run(run: dict) -> dict:
                 elif kind == 'engine':
                     eng = make_exact_engine(op['seed'], op['rate'])
                     engines.append(eng)
-                    # registration itself runs without pre-emption: two callers *registering* at the
-                    # same moment is not an evaluation (EngineList.register sorts with a Python key
-                    # function and is not reentrant: "list modified during sort"); what is under test
-                    # is evaluating while the registry changes under the evaluators' feet
-                    sc.atomic[i] = True
-                    try:
-                        register_engine(eng, priority=1000 + len(engines))
-                    finally:
-                        sc.atomic[i] = False
-                    rec['outcome'] = ['ok']
+                    # two callers *registering* at the same moment is not an evaluation (EngineList.register
+                    # sorts with a Python key function and is not reentrant): one registrant at a time,
+                    # but evaluations of the other threads do interleave with it
+                    if busy.get('registering'):
+                        engines.pop()
+                        rec['outcome'] = ['skipped-another-registration-in-progress']
+                    else:
+                        busy['registering'] = True
+                        try:
+                            register_engine(eng, priority=1000 + len(engines))
+                        finally:
+                            busy['registering'] = False
+                        rec['outcome'] = ['ok']
                 elif kind == 'gc':
                     gc.collect()
                     rec['outcome'] = ['ok']
